@@ -54,7 +54,11 @@ pub fn cases(tier: Tier) -> Vec<Case> {
     let mut out = vec![];
     // every tree with <= 7 nodes (depth <= 4)
     for (i, s) in mk(4, 7).all().into_iter().enumerate() {
-        out.push(Case { t: s, layout: (i % 5) as u8, elim_first: i % 3 == 0 });
+        out.push(Case { t: s.clone(), layout: (i % 5) as u8, elim_first: false });
+        // partial trees also after infeasible_elimination (kept only-children then carry the cached state Infeasible)
+        if !s.is_total() || i % 3 == 0 {
+            out.push(Case { t: s, layout: ((i + 2) % 5) as u8, elim_first: true });
+        }
     }
     // larger trees: depth <= 3, 8-9 (thorough: 8-10) nodes, every keep-th
     let (big, keep) = if tier == Tier::Quick { (9, 37) } else { (10, 11) };
@@ -114,6 +118,22 @@ pub fn cases(tier: Tier) -> Vec<Case> {
     };
     for (i, s) in gm.all().into_iter().enumerate() {
         out.push(Case { t: s, layout: (i % 5) as u8, elim_first: false });
+    }
+    // one input, parallel predicates with a gap (x <= 0 against x >= 1): robustly infeasible paths, so that
+    // infeasible_elimination leaves kept only-children with the cached state Infeasible above equal siblings
+    let g1 = TreeGen {
+        k: 2,
+        preds: vec![Aff::row1(&[1.0], 0.0), Aff::row1(&[-1.0], -1.0), Aff::row1(&[1.0], -5.0)],
+        terms: vec![Aff::row1(&[2.0], 3.0), Aff::row1(&[1.0], 0.0)],
+        max_depth: 3,
+        max_nodes: 6,
+        partial: true,
+    };
+    for (i, s) in g1.all().into_iter().enumerate() {
+        out.push(Case { t: s.clone(), layout: (i % 5) as u8, elim_first: true });
+        if i % 2 == 0 {
+            out.push(Case { t: s, layout: ((i + 1) % 5) as u8, elim_first: false });
+        }
     }
     // trees over R^0 (what remove_axes leaves when every axis is sliced away): predicates 0 <= b, constant terminals
     let z = |b: f64| Aff::with_indim(vec![vec![]], vec![b], 0);
